@@ -4,14 +4,15 @@ package main
 // function ids, final globals), and drives per-function translation.
 
 import (
-	"sync"
 	"fmt"
 	"go/token"
 	"go/types"
 	"os"
 	"path/filepath"
+	"reflect"
 	"sort"
 	"strings"
+	"sync"
 
 	"golang.org/x/tools/go/packages"
 	"golang.org/x/tools/go/ssa"
@@ -21,21 +22,24 @@ import (
 const modulePath = "trpc.group/trpc-go/trpc-mcp-go"
 
 type Engine struct {
-	repo    string
-	fset    *token.FileSet
-	pkgs    []*packages.Package
-	prog    *ssa.Program
-	spkgs   map[string]*ssa.Package // by path
-	tpkgs   map[string]*types.Package
-	tags    *TagTable
-	fnIDs   map[*ssa.Function]int
-	fnByID  []*ssa.Function
-	specs   *SpecDB
+	repo           string
+	fset           *token.FileSet
+	pkgs           []*packages.Package
+	prog           *ssa.Program
+	spkgs          map[string]*ssa.Package // by path
+	tpkgs          map[string]*types.Package
+	tags           *TagTable
+	fnIDs          map[*ssa.Function]int
+	fnByID         []*ssa.Function
+	specs          *SpecDB
 	mutableGlobals map[*ssa.Global]bool
 	funcsByName    map[string]*ssa.Function // "pkgpath.Recv.Name" keys, see funcKey
 	anonByParent   map[*ssa.Function][]*ssa.Function
 	loadErrs       []string
 	timeoutS       int
+	retries        int32 // long-timeout retries used in this run
+	specLint       []string
+	thorough       bool
 	seed           int
 	need           int
 	stale          []string
@@ -43,13 +47,13 @@ type Engine struct {
 	globalIDs      map[*ssa.Global]int
 	curProp        string
 	scopeKinds     map[*ssa.Function][]string
-	closerMemo *closerInfo
-	deadMemo   map[*ssa.Function]bool
-	bindings   map[string]*fnBindings
-	knownFns   map[string]bool
-	bindMu     sync.Mutex
+	closerMemo     *closerInfo
+	deadMemo       map[*ssa.Function]bool
+	bindings       map[string]*fnBindings
+	knownFns       map[string]bool
+	bindMu         sync.Mutex
 	relevantGhosts map[string]bool
-	deadSkipped map[string]bool
+	deadSkipped    map[string]bool
 	closeMemo      map[*ssa.Function]int
 }
 
@@ -71,7 +75,7 @@ type SpecDB struct {
 func loadEngine(repo string, contractMirror string) (*Engine, error) {
 	e := &Engine{repo: repo, tags: newTagTable(), fnIDs: map[*ssa.Function]int{}, spkgs: map[string]*ssa.Package{},
 		tpkgs: map[string]*types.Package{}, mutableGlobals: map[*ssa.Global]bool{}, funcsByName: map[string]*ssa.Function{},
-		anonByParent: map[*ssa.Function][]*ssa.Function{}, timeoutS: 10, need: 1}
+		anonByParent: map[*ssa.Function][]*ssa.Function{}, timeoutS: 15, need: 1}
 	overlay := map[string][]byte{}
 	// inject mirror contract files that are missing in the tree
 	if contractMirror != "" {
@@ -225,6 +229,7 @@ func (e *Engine) loadSpecs(externDir string) error {
 				old.FinalDecls = append(old.FinalDecls, t.FinalDecls...)
 				old.Private = append(old.Private, t.Private...)
 				old.Transient = append(old.Transient, t.Transient...)
+				old.Wire = append(old.Wire, t.Wire...)
 				old.LockInvs = append(old.LockInvs, t.LockInvs...)
 				old.Frozen = append(old.Frozen, t.Frozen...)
 				old.Owns = append(old.Owns, t.Owns...)
@@ -298,6 +303,7 @@ func (e *Engine) loadSpecs(externDir string) error {
 		}
 	}
 	e.computeFieldAliases()
+	e.lintGhostFrames()
 	return nil
 }
 
@@ -577,9 +583,9 @@ func (e *Engine) mayClose(fn *ssa.Function) bool {
 
 type closerInfo struct {
 	stores  map[string][]ssa.Value // "pkg.T.f" -> channel values stored into the field (or its container)
-	byField map[string][]string // "pkg.T.f" -> closing functions
-	unknown map[string][]string // channel element type key -> closing functions of unknown provenance
-	anyOf   map[string]bool     // channel element type key -> some close() on that type exists
+	byField map[string][]string    // "pkg.T.f" -> closing functions
+	unknown map[string][]string    // channel element type key -> closing functions of unknown provenance
+	anyOf   map[string]bool        // channel element type key -> some close() on that type exists
 }
 
 func fieldOfAddr(v ssa.Value) string {
@@ -640,12 +646,26 @@ func chanProvenance(v ssa.Value, depth int) []string {
 		// a channel made here: the fields it is stored into
 		var out []string
 		var follow func(v ssa.Value)
+		hops := 0
 		follow = func(v ssa.Value) {
 			if v.Referrers() == nil {
 				return
 			}
 			for _, r := range *v.Referrers() {
 				switch u := r.(type) {
+				case *ssa.Call:
+					// handed to an unexported function of the module (a registration moved into a helper):
+					// what the helper does with its parameter
+					if callee := u.Call.StaticCallee(); callee != nil && callee.Object() != nil && !callee.Object().Exported() &&
+						callee.Pkg != nil && inModule(callee.Pkg.Pkg) && len(callee.Blocks) > 0 && hops < 3 {
+						for i, a := range u.Call.Args {
+							if a == v && i < len(callee.Params) {
+								hops++
+								follow(callee.Params[i])
+								hops--
+							}
+						}
+					}
 				case *ssa.MakeInterface:
 					follow(u)
 				case *ssa.MapUpdate:
@@ -800,21 +820,90 @@ func (e *Engine) fieldNeverClosed(ci *closerInfo, p string) bool {
 	if len(ci.byField[p]) > 0 || len(ci.stores[p]) == 0 {
 		return false
 	}
-	for _, sv := range ci.stores[p] {
-		if mi, ok := sv.(*ssa.MakeInterface); ok {
-			sv = mi.X
-		}
-		mc, ok := sv.(*ssa.MakeChan)
+	for _, sv0 := range ci.stores[p] {
+		svs, ok := e.storedChanSources(sv0, 0)
 		if !ok {
 			return false
 		}
-		for _, q := range chanProvenance(mc, 0) {
-			if q == "" || q == "<local>" || len(ci.byField[q]) > 0 {
+		for _, sv := range svs {
+			mc, ok := sv.(*ssa.MakeChan)
+			if !ok {
 				return false
+			}
+			for _, q := range chanProvenance(mc, 0) {
+				if q == "" || q == "<local>" || len(ci.byField[q]) > 0 {
+					return false
+				}
 			}
 		}
 	}
 	return true
+}
+
+// storedChanSources: where a stored channel value comes from.  A parameter of an unexported function that
+// is only ever called directly stands for the arguments at its call sites (a registration moved into a
+// helper).
+func (e *Engine) storedChanSources(sv ssa.Value, depth int) ([]ssa.Value, bool) {
+	if mi, ok := sv.(*ssa.MakeInterface); ok {
+		sv = mi.X
+	}
+	par, ok := sv.(*ssa.Parameter)
+	if !ok {
+		return []ssa.Value{sv}, true
+	}
+	fn := par.Parent()
+	if depth > 2 || fn == nil || fn.Parent() != nil || fn.Object() == nil || fn.Object().Exported() {
+		return nil, false
+	}
+	idx := -1
+	for i, q := range fn.Params {
+		if q == par {
+			idx = i
+		}
+	}
+	if idx < 0 {
+		return nil, false
+	}
+	var out []ssa.Value
+	for _, g := range e.funcsByName {
+		for _, b := range g.Blocks {
+			for _, in := range b.Instrs {
+				// the function used as a value (stored, passed, bound): callers unknown
+				if _, isCall := in.(ssa.CallInstruction); !isCall {
+					for _, op := range in.Operands(nil) {
+						if *op == ssa.Value(fn) {
+							return nil, false
+						}
+					}
+					continue
+				}
+				cc := in.(ssa.CallInstruction).Common()
+				for _, a := range cc.Args {
+					if a == ssa.Value(fn) {
+						return nil, false
+					}
+				}
+				if cc.StaticCallee() != fn {
+					continue
+				}
+				if _, isGo := in.(*ssa.Go); isGo {
+					return nil, false
+				}
+				if idx >= len(cc.Args) {
+					return nil, false
+				}
+				srcs, ok := e.storedChanSources(cc.Args[idx], depth+1)
+				if !ok {
+					return nil, false
+				}
+				out = append(out, srcs...)
+			}
+		}
+	}
+	if len(out) == 0 {
+		return nil, false
+	}
+	return out, true
 }
 
 // ---------------------------------------------------------------------------
@@ -972,4 +1061,189 @@ func (e *Engine) ghostRelevant(name string) bool {
 type staleSpec struct {
 	msg  string
 	spec *FuncSpec
+}
+
+// lintGhostFrames: an ensures clause that relates a stable ghost to its old value ("g == old(g) + 1") on a
+// function whose frame does not list g would be contradictory at every call site (stable ghosts survive a
+// call unless the contract lists them), and everything after such a call would verify vacuously.  A contract
+// that speaks about the new value of a stable ghost therefore lists it implicitly: the ghost is added to the
+// function's modifies list (recorded in e.specLint for the evidence).  Only ghosts at the head of a term count
+// (status(encw(e)) speaks about status, not about encw).
+func (e *Engine) lintGhostFrames() {
+	var mentions func(x Expr, inOld bool, cur, old map[string]bool)
+	mentions = func(x Expr, inOld bool, cur, old map[string]bool) {
+		note := func(name string) {
+			if g, ok := e.specs.ghosts[name]; ok && g.Stable {
+				if inOld {
+					old[name] = true
+				} else {
+					cur[name] = true
+				}
+			}
+		}
+		switch n := x.(type) {
+		case *EIdent:
+			note(n.Name)
+		case *EUnary:
+			mentions(n.X, inOld, cur, old)
+		case *EBinary:
+			mentions(n.X, inOld, cur, old)
+			mentions(n.Y, inOld, cur, old)
+		case *ECond:
+			mentions(n.C, inOld, cur, old)
+			mentions(n.A, inOld, cur, old)
+			mentions(n.B, inOld, cur, old)
+		case *ESel:
+			mentions(n.X, inOld, cur, old)
+		case *EIndex:
+			mentions(n.X, inOld, cur, old)
+			mentions(n.I, inOld, cur, old)
+		case *ECall:
+			if id, ok := n.Fn.(*EIdent); ok {
+				if _, isGhost := e.specs.ghosts[id.Name]; isGhost {
+					note(id.Name)
+					// arguments of a ghost application are locations, not values being constrained:
+					// ghosts that occur only there are not heads
+					for _, a := range n.Args {
+						skipHeads(a, inOld, cur, old, mentions)
+					}
+					return
+				}
+				if id.Name == "old" || id.Name == "atlock" {
+					for _, a := range n.Args {
+						mentions(a, true, cur, old)
+					}
+					return
+				}
+			}
+			for _, a := range n.Args {
+				mentions(a, inOld, cur, old)
+			}
+		case *EOld:
+			mentions(n.X, true, cur, old)
+		case *EQuant:
+			mentions(n.Body, inOld, cur, old)
+		case *EAssertT:
+			mentions(n.X, inOld, cur, old)
+		}
+	}
+	listed := func(fs *FuncSpec) map[string]bool {
+		out := map[string]bool{}
+		for _, m := range fs.Modifies {
+			switch n := m.(type) {
+			case *EIdent:
+				out[n.Name] = true
+			case *ECall:
+				if id, ok := n.Fn.(*EIdent); ok {
+					out[id.Name] = true
+				}
+			}
+		}
+		for _, g := range fs.Counted {
+			out[g] = true
+		}
+		for _, g := range fs.CountedWhen {
+			out[g.Ghost] = true
+		}
+		for _, r := range fs.Records {
+			out[r[0]] = true
+		}
+		return out
+	}
+	fix := func(name string, fs *FuncSpec) {
+		if fs.Pure && !fs.ModAll {
+			return
+		}
+		if fs.ModAll && len(fs.Modifies) == 0 && !fs.Extern && !fs.Trusted {
+			return // modifies * alone: stable ghosts included
+		}
+		have := listed(fs)
+		for _, c := range fs.Ensures {
+			cur, old := map[string]bool{}, map[string]bool{}
+			mentions(c.E, false, cur, old)
+			for _, g := range sortedKeys(cur) {
+				if old[g] && !have[g] {
+					have[g] = true
+					fs.Modifies = append(fs.Modifies, &EIdent{Name: g})
+					e.specLint = append(e.specLint, fmt.Sprintf("%s: %s speaks about the new value of stable ghost %s: listed in its frame implicitly", c.Line, shortCallee(name), g))
+				}
+			}
+		}
+	}
+	for _, name := range sortedKeys(e.specs.funcs) {
+		fix(name, e.specs.funcs[name])
+	}
+	for _, k := range sortedKeys(e.specs.csByKey) {
+		fix("callspec "+k, e.specs.csByKey[k])
+	}
+}
+
+// skipHeads: visit the argument of a ghost application; nested ghost applications there are locations.
+func skipHeads(x Expr, inOld bool, cur, old map[string]bool, mentions func(Expr, bool, map[string]bool, map[string]bool)) {
+	switch n := x.(type) {
+	case *ECall:
+		for _, a := range n.Args {
+			skipHeads(a, inOld, cur, old, mentions)
+		}
+	case *EIdent:
+	default:
+		_ = n
+	}
+}
+
+// wireChecks: type clause "wire[TAGS] Field as member": the struct tag of the field is exactly `json:"member"`
+// (no omitempty, no "-", no other name), so encoding/json always emits the member.  Decided on the type
+// declaration itself.
+type wireResult struct {
+	name, detail, line string
+	ok                 bool
+}
+
+func (e *Engine) wireChecks() []wireResult {
+	var out []wireResult
+	for _, tkey := range sortedKeys(e.specs.types) {
+		ts := e.specs.types[tkey]
+		for _, wd := range ts.Wire {
+			if !e.active(wd.Tags) {
+				continue
+			}
+			i := strings.LastIndex(tkey, ".")
+			var st *types.Struct
+			for _, p := range e.pkgs {
+				if i > 0 && p.Types != nil && p.Types.Path() == tkey[:i] {
+					if tn, ok := p.Types.Scope().Lookup(tkey[i+1:]).(*types.TypeName); ok {
+						st, _ = tn.Type().Underlying().(*types.Struct)
+					}
+				}
+			}
+			for _, pr := range wd.Pairs {
+				field, member := pr[0], pr[1]
+				if to, ok := fieldAliasByType[tkey][field]; ok {
+					field = to
+				}
+				r := wireResult{name: fmt.Sprintf("type:%s#wire:%s", ts.Name, pr[0]), line: wd.Line}
+				if st == nil {
+					r.detail = "no such struct type"
+				} else {
+					found := false
+					for k := 0; k < st.NumFields(); k++ {
+						if st.Field(k).Name() == field {
+							found = true
+							tag := reflect.StructTag(st.Tag(k)).Get("json")
+							if tag == member {
+								r.ok = true
+							} else {
+								r.detail = fmt.Sprintf("field %s of %s is tagged json:%q; the contract requires the member %q to be always present (tag exactly %q)", field, ts.Name, tag, member, member)
+							}
+						}
+					}
+					if !found {
+						r.detail = "no field " + field
+					}
+				}
+				out = append(out, r)
+			}
+		}
+	}
+	return out
 }
